@@ -31,7 +31,7 @@ def register(reg, prog):
                  'proxy_uri': Opt(STR), 'proxy_scheme': Opt(STR), 'echo': Opt(BYTES), 'oscore': Opt(BYTES),
                  'uri_path_abbrev': Opt(INT), 'request_tag': Seq(BYTES), 'max_age': Opt(INT),
                  'location_path': Seq(STR), 'location_query': Seq(STR), 'etags': Seq(BYTES), 'if_none_match': BOOL,
-                 'hop_limit': Opt(INT), 'edhoc': BOOL}
+                 'hop_limit': Opt(INT), 'edhoc': BOOL, 'if_match': Seq(BYTES)}
     reg.classes['Options'].fields.update(OPT_VIEWS)
     reg.assume('A-OPTVIEW: the option views of an Options object (opt.block1, opt.observe, ...) are modelled as independent '
                'fields; their link to the codec dictionary `_options` is not modelled')
